@@ -168,9 +168,10 @@ Sin2(e) == DMul(DSq(e.n0), DAdd(DSq(e.d[1]), DSq(e.d[2])))
 TeleChief(e) == (e.Px = DZero /\ e.Py = DZero) => (e.d[1] = DZero /\ e.d[2] = DZero)
 TeleCone(e) == DLe(Sin2(e), UpTol(DSq(e.NA), 40))
 TeleRim(e) == Close(P2(e), DOne, 45) => Close(Sin2(e), DSq(e.NA), 40)
-TeleAzimuth(e) == /\ Small(DSub(DMul(e.d[1], e.Py), DMul(e.d[2], e.Px)), DOne, DB)
-                  /\ DSign(e.d[1]) = DSign(e.Px) /\ DSign(e.d[2]) = DSign(e.Py)
+\* (a component of P below the rounding unit of the object height may be lost: sign 0 is admitted)
 TeleSigns(e) == /\ DSign(e.d[1]) \in {0, DSign(e.Px)} /\ DSign(e.d[2]) \in {0, DSign(e.Py)}
+TeleAzimuth(e) == /\ Small(DSub(DMul(e.d[1], e.Py), DMul(e.d[2], e.Px)), DOne, DB)
+                  /\ TeleSigns(e)
 
 Fails(ok, name) == IF ok THEN {} ELSE {name}
 JudgeRay(e) ==
@@ -223,11 +224,13 @@ CountOK(name, n, cnt) ==
     [] name = "gaussian_quadrature_symmetric" -> n \in 1..6 /\ cnt = n
     [] OTHER -> FALSE
 InDisk(x, y) == DLe(DAdd(DSq(x), DSq(y)), DAdd(DOne, DShift(DOne, -50)))
-\* a sampling event: name, n, cnt (= number of points or of launched rays), x, y (sequences)
+\* a sampling event: name, n, cnt (= number of points, or of rays launched by optic.trace), and - when
+\* pts - the points x, y (sequences)
 JudgeDist(e) ==
   Fails(CountOK(e.name, e.n, e.cnt), "count") \cup
-  Fails(Len(e.x) = e.cnt /\ Len(e.y) = e.cnt, "count_arrays") \cup
-  Fails(\A k \in 1..Len(e.x) : k <= Len(e.y) => InDisk(e.x[k], e.y[k]), "inside_unit_pupil")
+  (IF e.pts THEN Fails(Len(e.x) = e.cnt /\ Len(e.y) = e.cnt, "count_arrays") \cup
+                 Fails(\A k \in 1..Len(e.x) : k <= Len(e.y) => InDisk(e.x[k], e.y[k]), "inside_unit_pupil")
+   ELSE {})
 \* vignetting: the sampling with factors (vx, vy) in [0, 1] against the same sampling without
 ShrinkCoord(a, b) == DLe(DAbs(b), DAbs(a)) /\ DSign(b) \in {0, DSign(a)}
 JudgeVig(e) ==
